@@ -142,6 +142,14 @@ func (e *Engine) eval(c *evalCtx, x Expr) Val {
 		}
 		return e.unbox(c.st, v, T)
 	case *EType:
+		if strings.HasPrefix(n.T, "*") {
+			// *x where x is a variable: dereference
+			if ex, err := parseExpr(n.T[1:]); err == nil {
+				if v, err2 := e.tryEval(c, ex); err2 == nil && isPointer(v.T) {
+					return c.st.loadAt(ptrInfo(v), deref(v.T))
+				}
+			}
+		}
 		panic(fmt.Errorf("type expression %s used as value", n.T))
 	}
 	panic(fmt.Errorf("cannot evaluate %T", x))
@@ -484,6 +492,14 @@ func (e *Engine) evalIndex(c *evalCtx, n *EIndex) Val {
 // evalAddr evaluates an lvalue expression to a location.
 func (e *Engine) evalAddr(c *evalCtx, x Expr) (*PtrInfo, types.Type) {
 	switch n := x.(type) {
+	case *EType:
+		if strings.HasPrefix(n.T, "*") {
+			if ex, err := parseExpr(n.T[1:]); err == nil {
+				if v, err2 := e.tryEval(c, ex); err2 == nil && isPointer(v.T) {
+					return ptrInfo(v), deref(v.T)
+				}
+			}
+		}
 	case *EUnary:
 		if n.Op == "*" {
 			v := e.eval(c, n.X)
@@ -675,6 +691,56 @@ func (e *Engine) evalCall(c *evalCtx, n *ECall) Val {
 				panic(fmt.Errorf("unknown type %q", tn))
 			}
 			return boolVal(Eq(v.iTag(), typeTag(T)))
+		case "beUint":
+			// big-endian value of the bytes of a slice (constant length <= 8 on this path), zero-extended to 64 bits
+			d := e.eval(c, n.Args[0])
+			ln := d.sLen()
+			if len(n.Args) > 1 {
+				ln = toWidth(e.eval(c, n.Args[1]).t(), 64, false)
+			}
+			if ln.Op != OConst || ln.Val > 8 {
+				return Val{types.Typ[types.Uint64], []*Term{App("beUint", Ref64, c.st.cellArr(arrRoot(types.Typ[types.Uint8])+"|[]", 2, BV(8)), d.sRef(), d.sOff(), ln)}}
+			}
+			v := BVConst(0, 64)
+			for i := uint64(0); i < ln.Val; i++ {
+				b := c.st.loadLeaf(arrRoot(types.Typ[types.Uint8])+"|[]", []*Term{d.sRef(), Add(d.sOff(), BVConst(i, 64))}, BV(8))
+				v = BOr(Shl(v, BVConst(8, 64)), ZExt(b, 64))
+			}
+			return Val{types.Typ[types.Uint64], []*Term{v}}
+		case "crcOverZeroed":
+			// crcOverZeroed(crcType, stream, from, to): checksum (as specified by crcType: 1 = CRC-16/X-25, 2 = CRC-32C)
+			// of the tokens stream[from..to) where the last token -- the CRC byte string -- is replaced by zero bytes.
+			ty := toWidth(e.eval(c, n.Args[0]).t(), 64, false)
+			s := e.resolveAlias(c.st, streamRef(e.eval(c, n.Args[1])))
+			from := toWidth(e.eval(c, n.Args[2]).t(), 64, false)
+			to := toWidth(e.eval(c, n.Args[3]).t(), 64, false)
+			seq := e.tokSeq(c.st, s, from, Sub(to, BVConst(1, 64)))
+			seqS := UnSort("TokSeq")
+			k := Ite(Eq(ty, BVConst(1, 64)), BVConst(2, 64), BVConst(4, 64))
+			seq = App("tokseq_cons", seqS, seq, BVConst(tkBlk, 8), BVConst(0, 8), k, BVConst(0, 64), BVConst(0, 64))
+			v := Ite(Eq(ty, BVConst(1, 64)), ZExt(App("crc16x25_toks", BV(16), seq), 64), ZExt(App("crc32c_toks", BV(32), seq), 64))
+			return Val{types.Typ[types.Uint64], []*Term{v}}
+		case "ioOK":
+			// hypothesis of round-trip behaviours: the underlying reader/writer does not fail
+			c.st.ghost["$noioerr"] = boolVal(True)
+			return boolVal(True)
+		case "rpos", "wpos":
+			s := e.resolveAlias(c.st, streamRef(e.eval(c, n.Args[0])))
+			if id.Name == "rpos" {
+				return Val{types.Typ[types.Uint64], []*Term{rposOf(c.st, s)}}
+			}
+			return Val{types.Typ[types.Uint64], []*Term{wposOf(c.st, s)}}
+		case "tokHead", "tokRaw", "tokFix", "tokFixLE", "tokBlk", "tokEID", "tokExt", "tokKind":
+			return e.evalTokPred(c, id.Name, n.Args)
+		case "bytesEq":
+			a := e.eval(c, n.Args[0])
+			b := e.eval(c, n.Args[1])
+			r, _ := modelBytesEqual(e, c.st, nil, nil, []Val{a, b}, nil)
+			return r
+		case "sameSlice":
+			a := e.eval(c, n.Args[0])
+			b := e.eval(c, n.Args[1])
+			return boolVal(And(Eq(a.sLen(), b.sLen()), Or(Eq(a.sLen(), BVConst(0, 64)), And(Eq(a.sRef(), b.sRef()), Eq(a.sOff(), b.sOff())))))
 		case "closed":
 			ch := e.eval(c, n.Args[0])
 			return boolVal(c.st.loadLeaf("chan|closed", []*Term{ch.t()}, BoolSort))
@@ -876,4 +942,73 @@ func (e *Engine) pkgByPath(path string) *types.Package {
 		return p.Pkg
 	}
 	return nil
+}
+
+// evalTokPred: stream token predicates tokX(stream, position, fields...).
+func (e *Engine) evalTokPred(c *evalCtx, name string, args []Expr) Val {
+	s := e.resolveAlias(c.st, streamRef(e.eval(c, args[0])))
+	pos := toWidth(e.eval(c, args[1]).t(), 64, false)
+	t := e.tokLoad(c.st, s, pos)
+	arg := func(i int, w int) *Term {
+		v := e.eval(c, args[i])
+		return toWidth(v.t(), w, false)
+	}
+	switch name {
+	case "tokKind":
+		return Val{types.Typ[types.Uint8], []*Term{t.kind}}
+	case "tokHead":
+		return boolVal(And(Eq(t.kind, BVConst(tkHead, 8)), Eq(t.m, arg(2, 8)), Eq(t.n, arg(3, 64))))
+	case "tokRaw":
+		return boolVal(And(Eq(t.kind, BVConst(tkRaw, 8)), Eq(t.n, arg(2, 64))))
+	case "tokFix", "tokFixLE":
+		wv := e.eval(c, args[2])
+		if wv.t().Op != OConst {
+			panic(fmt.Errorf("tokFix width must be constant"))
+		}
+		m := wv.t().Val
+		if name == "tokFixLE" {
+			m |= 0x80
+		}
+		return boolVal(And(Eq(t.kind, BVConst(tkFix, 8)), Eq(t.m, BVConst(m, 8)), Eq(t.n, arg(3, 64))))
+	case "tokBlk":
+		data := e.eval(c, args[2])
+		if isString(data.T) {
+			return boolVal(And(Eq(t.kind, BVConst(tkBlk, 8)), Eq(t.n, strLen(data.t())), Eq(t.cid, App("strcid", Ref64, data.t()))))
+		}
+		n := data.sLen()
+		key := arrRoot(types.Typ[types.Uint8]) + "|[]"
+		var content *Term
+		if n.Op != OConst && t.n.Op == OConst && t.n.Val <= 16 {
+			// the token's length is known on this path: compare byte-wise under the length equality
+			cs := []*Term{}
+			for i := uint64(0); i < t.n.Val; i++ {
+				cs = append(cs, Eq(c.st.loadLeaf("blk|data", []*Term{t.cid, BVConst(i, 64)}, BV(8)),
+					c.st.loadLeaf(key, []*Term{data.sRef(), Add(data.sOff(), BVConst(i, 64))}, BV(8))))
+			}
+			content = And(cs...)
+		} else if n.Op == OConst && n.Val <= 16 {
+			cs := []*Term{}
+			for i := uint64(0); i < n.Val; i++ {
+				cs = append(cs, Eq(c.st.loadLeaf("blk|data", []*Term{t.cid, BVConst(i, 64)}, BV(8)),
+					c.st.loadLeaf(key, []*Term{data.sRef(), Add(data.sOff(), BVConst(i, 64))}, BV(8))))
+			}
+			content = And(cs...)
+		} else {
+			arr := c.st.cellArr(key, 2, BV(8))
+			blk := c.st.cellArr("blk|data", 2, BV(8))
+			j := Bound("j", Ref64)
+			content = Forall([]*Term{j}, Implies(Ult(j, n), Eq(Select(blk, Concat(t.cid, j)), Select(arr, Concat(data.sRef(), Add(data.sOff(), j))))))
+		}
+		return boolVal(And(Eq(t.kind, BVConst(tkBlk, 8)), Eq(t.n, n), content))
+	case "tokEID":
+		v := e.eval(c, args[2])
+		if _, ok := v.T.Underlying().(*types.Struct); ok {
+			v = v.field(0)
+		}
+		return boolVal(And(Eq(t.kind, BVConst(tkEID, 8)), Eq(t.aux, ZExt(v.iTag(), 64)), Eq(t.cid, v.iPl())))
+	case "tokExt":
+		v := e.eval(c, args[2])
+		return boolVal(And(Eq(t.kind, BVConst(tkExt, 8)), Eq(t.aux, ZExt(v.iTag(), 64)), Eq(t.cid, v.iPl())))
+	}
+	panic(fmt.Errorf("unknown token predicate %s", name))
 }
